@@ -30,6 +30,15 @@ class HT:
     __slots__ = ('arg',)
     def __init__(self, arg): self.arg = arg
     def __repr__(self): return 'H%r' % (self.arg,)
+    # hashes that the code under test SORTS (e.g. to make a key order-insensitive): the order of ideal hash values is arbitrary but
+    # fixed; model = structural order of the arguments with symbolic tokens rendered alike, so both copies of a form sort the same way
+    def _skey(self):
+        import re
+        return re.sub(r'<tok [^>]*>|Tok\([^)]*\)', '<tok>', repr(self))
+    def __lt__(self, o): return self._skey() < (o._skey() if isinstance(o, HT) else repr(o))
+    def __gt__(self, o): return self._skey() > (o._skey() if isinstance(o, HT) else repr(o))
+    def __le__(self, o): return not self.__gt__(o)
+    def __ge__(self, o): return not self.__lt__(o)
 
 
 class Concretised(Exception):
@@ -249,6 +258,19 @@ def templates(vf):
     def mk(tok, ctx):
         V, u, v = base(); V.add(u * v * vf.dx); return V
     add('on-demand mode', [False, True], mk, lambda V: 'on_demand')
+    # structural variants (no attribute slot): the two values build two different trees; the model keys are compared directly
+    def mk(tok, ctx):
+        V = vf.VForm(2, arity=1); v = V.basisfuns(); f = V.input('f'); g = V.input('g')
+        V.add(((f - g) if tok == 0 else (g - f)) * v * vf.dx); return V
+    add('operand order of a difference', [0, 1], mk, lambda V: 'structural')
+    def mk(tok, ctx):
+        V = vf.VForm(2, arity=1); v = V.basisfuns(); f = V.input('f'); g = V.input('g')
+        V.add(((f + 1) / (g + 2) if tok == 0 else (g + 2) / (f + 1)) * v * vf.dx); return V
+    add('operand order of a quotient', [0, 1], mk, lambda V: 'structural')
+    def mk(tok, ctx):
+        V, u, v = base(); f = V.input('f')
+        V.add(f * (u.dx(0) * v if tok == 0 else u * v.dx(0)) * vf.dx); return V
+    add('derivative on trial vs test function', [0, 1], mk, lambda V: 'structural')
     return T
 
 
@@ -264,6 +286,10 @@ def slot_query(tpl, vf, asm_cache_args, ctx):
         k1 = (V.hash(), asm_cache_args(Tok(L))); k2 = (V.hash(), asm_cache_args(Tok(L2)))
         s = z3.Solver(); s.add(L != L2, tpl['domain'](L), tpl['domain'](L2), eq_formula(k1, k2, ids))
         return [('compile cache key / on_demand', str(s.check()))]
+    if slots == 'structural':
+        Va = tpl['make'](tpl['values'][0], ctx); Vb = tpl['make'](tpl['values'][1], ctx)
+        s = z3.Solver(); s.add(eq_formula(form_key(Va, False, asm_cache_args), form_key(Vb, False, asm_cache_args), ids))
+        return [('structure', str(s.check()))]
     if not slots:
         raise RuntimeError('template %s: token slot not found in the form' % tpl['name'])
     for (obj, attr, idx) in slots:
